@@ -4,7 +4,7 @@ import propcheck
 from sxg import *
 
 U32 = 2 ** 32
-VER = os.environ.get('C10_VER', 'v1')   # v0 = model of the pinned (unrepaired) code, for archaeology only
+VER = os.environ.get('C10_VER', 'v1')   # v0 / vd = models of the pinned code / of the code before the repair of dangling-in-range, for archaeology only
 
 
 # ------------------------------------------------------------------------------------------
@@ -271,6 +271,21 @@ def fixed_cases():
             ((2, 0), D([('Type', N('Pages')), ('Kids', A([REF(3), REF(4)])), ('Count', I(2))])),
             ((3, 0), page(2)), ((4, 0), page(2)), ((9, 0), D([('Tag', S(b'nine'))]))]
     cs.append((make_case(objs, [('Root', REF(1)), ('Nine', REF(9))], [], 1), {'kind': 'fixed-dangling-5', 'nontrivial': True}))
+    # the same dangling reference in the trailer, in an array and behind a chain of references; a bookmark on it
+    objs2 = [((1, 0), D([('Type', N('Catalog')), ('Pages', REF(2)), ('A', A([I(1), REF(5), A([REF(6)])]))])),
+             ((2, 0), D([('Type', N('Pages')), ('Kids', A([REF(3), REF(5), REF(4)])), ('Count', I(2))])),
+             ((3, 0), page(2)), ((4, 0), page(2)), ((9, 0), REF(5)), ((12, 0), D([('Tag', S(b'twelve'))]))]
+    cs.append((make_case(objs2, [('Root', REF(1)), ('Nine', REF(9)), ('Gone', REF(5)), ('Twelve', REF(12))],
+                         [L('none', OID(5)), L('none', OID(12)), L('1', OID(6))], 1), {'kind': 'fixed-dangling-many', 'nontrivial': True}))
+    # bookmarks whose page names no object, start 0: the "no page" id must not be the object numbered 0
+    objs3 = [((4, 0), D([('Type', N('Catalog'))])), ((7, 0), D([('Tag', S(b'seven'))]))]
+    cs.append((make_case(objs3, [('Root', REF(4))], [L('none', OID(0)), L('none', OID(7)), L('none', OID(2))], 0),
+               {'kind': 'fixed-bookmark-nopage-0', 'nontrivial': True}))
+    objs4 = [((4, 5), D([('Type', N('Catalog'))])), ((7, 0), D([('Tag', S(b'seven'))]))]
+    cs.append((make_case(objs4, [('Root', REF(4, 5))], [L('none', OID(0)), L('none', OID(0, 5)), L('none', OID(0, 1))], 0),
+               {'kind': 'fixed-bookmark-nopage-0-gen', 'nontrivial': True}))
+    cs.append((make_case(objs4, [('Root', REF(4, 5))], [L('none', OID(0)), L('none', OID(1, 5)), L('none', OID(2))], 1),
+               {'kind': 'fixed-bookmark-nopage-1', 'nontrivial': True}))
     # empty document, start 0 and 1
     cs.append((make_case([], [], [], 0, 0), {'kind': 'fixed-empty-0', 'nontrivial': True}))
     cs.append((make_case([], [], [], 1, 0), {'kind': 'fixed-empty-1', 'nontrivial': True}))
@@ -352,7 +367,7 @@ def gen_cases(rng, tier):
         last = start + len(ids) - 1
         mid = rng.choice([min(U32 - 1, last + 1), min(U32 - 1, last + rng.randint(1, 50)), 0, max(0, last - 1), U32 - 1, rng.randint(0, last)])
         line = make_case(objects, trailer, specs, start, mid)
-        cls = classify(line, {}, None, None, '')
+        cls = former_class(line)
         cases.append((line, {'kind': 'dense-stale-max' + ('-dangling-in-range' if cls else ''), 'nontrivial': len(objects) >= 3}))
     for k in range(n):
         size = rng.choice(['tiny', 'normal', 'normal', 'normal'])
@@ -369,13 +384,16 @@ def gen_cases(rng, tier):
             objects = [(i, o.replace(xb('Kids'), xb('Kidz'))) for i, o in objects]
             kind = 'mal-kids'
         line = make_case(objects, trailer, specs, start, pick_max_id(rng, objects))
-        cls = classify(line, {}, None, None, '')
+        cls = former_class(line)
         cases.append((line, {'kind': kind + ('-dangling-in-range' if cls else ''), 'nontrivial': len(objects) >= 3}))
     return cases
 
 
 # ------------------------------------------------------------------------------------------
-# known-finding class, decided on the INPUT (mirrors KnownClass in coq/Props/C10.v)
+# the class of the FIXED finding dangling-in-range, decided on the INPUT (mirrors KnownClass of
+# coq/Proofs/RenumberProofsTop.v).  It is no longer a known-finding class: SPEC has no 'classify', a failure on
+# such an input is a violation like any other.  It is used to label the generated cases (so that the report
+# shows how many inputs exercise the repaired behaviour) and is still compared with the Coq predicate.
 # ------------------------------------------------------------------------------------------
 def parse_sx(s):
     stack = [[]]
@@ -405,8 +423,8 @@ def refs_of(o, out):
     return out
 
 
-def classify(line, tags, model_out, impl_out, verdict):
-    """C10-dangling-in-range: some reference reachable from the trailer, or some bookmark target, names no
+def former_class(line):
+    """C10-dangling-in-range (fixed): some reference reachable from the trailer, or some bookmark target, names no
     object and its NUMBER lies in the new range [start, start+n).  Mirrors KnownClass of
     coq/Proofs/RenumberProofsTop.v (C10_KnownClass_spec): existsb over reach_list ++ bm_targets."""
     try:
@@ -447,7 +465,6 @@ SPEC = {
     'runner': 'c10',
     'bin': 'c10',
     'gen_cases': gen_cases,
-    'classify': classify,
     'rule': 'random documents: page trees (0-8 pages, optional intermediate Pages nodes, kids behind indirect reference '
             'objects, a page listed twice) whose page order is unrelated to the ids; id styles dense-from-1, dense-from-0, '
             'sparse, high, several generations of one number; generations zero/few/mixed; shared resources, content '
@@ -459,15 +476,16 @@ SPEC = {
             'StructTreeRoot/ParentTree), the trailer or a page, with chains of objects reachable ONLY through such arrays; '
             'max_id equal to / above (reserved ids, deleted objects) / below the highest number in use; documents already '
             'consecutive from the start value (dense pass has nothing to move) with a stale max_id; '
-            '8% damaged page trees; 18 fixed boundary cases; non-trivial = at least 3 objects; distinct = distinct case text',
+            '8% damaged page trees; 22 fixed boundary cases; non-trivial = at least 3 objects; distinct = distinct case text',
     'extra_trusted': ['C10: traverse_objects is modelled for reference-rewriting actions only (both actions used by renumbering)',
                       'C10: HashMap<u32, Bookmark> modelled as an association list printed in key order'],
 }
 
 
 def check_classifier(ctx):
-    """`classify` (Python, used to attribute failures to the open finding) must be the predicate KnownClass that the
-    theorems of Props/C10.v exclude: evaluate both on generated inputs (version `kc` of the model runner)."""
+    """`former_class` (Python, labels the generated inputs that exercise the repair of dangling-in-range) must be the
+    predicate KnownClass of Props/C10.v (C10_KnownClass_spec, the domain of C10_dangling_v1_refuted): evaluate both on
+    generated inputs (version `kc` of the model runner)."""
     import random
     import vlib
     runner, rlog = vlib.build_runner(SPEC['runner'])
@@ -485,14 +503,14 @@ def check_classifier(ctx):
     out = vlib.run_lines(runner, kc, timeout=600, shards=8)
     hits = 0
     for l, o in zip(lines, out):
-        py = classify(l, {}, None, None, '') is not None
+        py = former_class(l) is not None
         hits += py
         if o.strip() != '(known %d)' % (1 if py else 0):
             ctx.violation('classifier_%d' % ctx.seed, {
                 'kind': 'known-class-mirror-broken', 'property': 'C10', 'case': l, 'python_classify': py, 'coq_KnownClass': o,
-                'note': 'props/c10.py classify and KnownClass of coq/Proofs/RenumberProofsTop.v disagree'}, found_input=False)
+                'note': 'props/c10.py former_class and KnownClass of coq/Proofs/RenumberProofsTop.v disagree'}, found_input=False)
             return
-    ctx.notes.append('classify == KnownClass on %d generated inputs (%d in the class)' % (len(lines), hits))
+    ctx.notes.append('former_class == KnownClass on %d generated inputs (%d in the class of the fixed finding)' % (len(lines), hits))
 
 
 def run(ctx):
